@@ -201,16 +201,22 @@ func (e *Exec) checkCritical(st *State, callee string) {
 			continue
 		}
 		held := false
+		heldName := ""
 		for k, h := range st.held {
-			if h && st.heldNames[k] == cs.Mutex {
-				held = true
+			if h {
+				for _, mn := range strings.Split(cs.Mutex, "|") {
+					if st.heldNames[k] == mn {
+						held = true
+						heldName = mn
+					}
+				}
 			}
 		}
 		msg := ""
 		if !held {
 			msg = fmt.Sprintf("%s called by %s without holding %s: the version check and the write are not atomic", callee, op.fn.Name(), cs.Mutex)
 		} else {
-			ep := st.lockEpochs[cs.Mutex]
+			ep := st.lockEpochs[heldName]
 			if op.critEpoch == 0 {
 				op.critEpoch = ep
 			} else if op.critEpoch != ep {
